@@ -304,6 +304,7 @@ def cli_canon(out, err, interactive):
     err = ANSI.sub("", err)
     if interactive:
         out = re.sub(r"^Welcome to Atul's BASIC Interpreter v[^\n]*\nPress CTRL-C to exit\.\n", "", out)
+        out = out.replace("] ", "")          # the prompt of the line editor (generated programs never print it)
     # analyzer messages are printed only in file mode and are not program output
     err = "\n".join(l for l in err.split("\n") if not l.startswith("Warning on line "))
     return out, err
@@ -336,12 +337,13 @@ def run_c15(chk):
             chk.fail("load-crash", f"loading {text[:100]!r}: {resp[:120]}", {"file": text, "harness_commands": ["load\t" + esc(text.encode())]})
             continue
         a.state = "Idle"
-        b = sess.Session(h)
-        b_cmds = []
         tr = []
-        for sname, s in (("loaded", a), ("typed", b)):
+        b = None
+        for sname in ("loaded", "typed"):
             if sname == "typed":
-                enter_program(s, lines)
+                b = sess.Session(h)          # the harness holds one interpreter: start the second only now
+                enter_program(b, lines)
+            s = a if sname == "loaded" else b
             st = len(s.ops)
             s.line("LIST")
             s.line("RUN")
@@ -356,8 +358,11 @@ def run_c15(chk):
         path = os.path.join(work, f"p{i}.bas")
         with open(path, "w") as f:
             f.write(text)
-        stdin_file = "\n".join(replies) + "\n"
-        stdin_piped = "\n".join(lines + ["RUN"] + replies) + "\n"
+        # exactly the replies the program consumes (counted on the in-process run): in piped mode a surplus reply
+        # would be read as a command line after the program has ended
+        used = sum(1 for op, _ in a.ops if op[0] == "reply")
+        stdin_file = "".join(x + "\n" for x in replies[:used])
+        stdin_piped = "".join(x + "\n" for x in lines + ["RUN"] + replies[:used])
         for w in (False, True):
             for t in (False, True):
                 for skip in (False, True):
